@@ -394,6 +394,9 @@ def fn_named(obj, name):
         return False
     if nm == name:
         return True
+    if any(getattr(f, 'name', None) == name for f, _ in getattr(obj, 'via', ())):
+        # the un-run generator was handed back by a plain function of that name (a dispatcher over several generators)
+        return True
     mod = getattr(fn, 'module', None)
     rel = getattr(mod, 'relpath', None)
     if rel is None:
